@@ -3,9 +3,9 @@
 //!   run <api> <xor> <seed> <k> <hexsrc>*k
 //!        api: add | changes | prepend;  xor: 0|1
 //!        -> PARSE <err> | ERR <chunk idx> <Debug of the error> | OK class V NUM q N LEN <raw> rec R qa <Debug> ca <Debug> nb B out K o..
-//!   session <seed> <k> <hexsrc>*k      (add_ast, failures tolerated)
+//!   session [x]<seed> <k> <hexsrc>*k   (add_ast, failures tolerated; 'x': the session starts from Int::default().xor())
 //!        -> OK v <k verdicts: ok|err:<Debug>> snap <hex of Debug after every chunk, '/'-separated> | final <as run>
-//!   rerun <seed> <hexsrc>              (finish, then reset + finish again, then init with the same Int, finish)
+//!   rerun <seed> <hexsrc> <hexsrc2>    (finish from Sym::new, reset + finish twice, init with the same Int, with another one)
 //!        -> OK <raw1> / <raw2> / <raw3>  (each preceded by class)
 //! Source texts are hex encoded (one token each).  A source that does not parse is reported, not run.
 
@@ -83,21 +83,18 @@ pub fn run(toks: &[&str]) -> String {
             format!("OK {}", finish_report(int))
         }
         "session" => {
-            let seed: u64 = t.next().unwrap().parse().unwrap();
+            // a leading 'x' on the seed token: the session starts from Int::default().xor()
+            let st = t.next().unwrap();
+            let xor = st.starts_with('x');
+            let seed: u64 = st.trim_start_matches('x').parse().unwrap();
             let k = parse_n(t.next().unwrap());
             let srcs: Vec<String> = (0..k).map(|_| unhex_str(t.next().unwrap())).collect();
             qvnt::verif::seed(seed);
             let mut int = Int::default();
+            if xor { int = int.xor(); }
             let mut verdicts = vec![];
             let mut snaps = vec![];
-            for src in srcs.iter() {
-                match Ast::from_source(src) {
-                    Err(e) => verdicts.push(format!("parse:{}", hex_str(&format!("{:?}", e)))),
-                    Ok(ast) => match int.add_ast(ast) {
-                        Ok(()) => verdicts.push("ok".into()),
-                        Err(e) => verdicts.push(format!("err:{}", hex_str(&format!("{:?}", e)))),
-                    },
-                }
+            let snapshot = |int: &Int| {
                 let mut snap = format!("{:?}|{}|{}|{}|{}", int.get_ops_tree(), int.get_q_alias(), int.get_c_alias(),
                                        int.iter_ast().count(), {
                     // Debug of the interpreter with the macro table in sorted order
@@ -108,7 +105,19 @@ pub fn run(toks: &[&str]) -> String {
                     format!("{}{}", head, parts.join("Macro {"))
                 });
                 snap = snap.replace(' ', "");
-                snaps.push(hex_str(&snap));
+                hex_str(&snap)
+            };
+            // snapshot 0: the session before any chunk; snapshot i+1: after chunk i
+            snaps.push(snapshot(&int));
+            for src in srcs.iter() {
+                match Ast::from_source(src) {
+                    Err(e) => verdicts.push(format!("parse:{}", hex_str(&format!("{:?}", e)))),
+                    Ok(ast) => match int.add_ast(ast) {
+                        Ok(()) => verdicts.push("ok".into()),
+                        Err(e) => verdicts.push(format!("err:{}", hex_str(&format!("{:?}", e)))),
+                    },
+                }
+                snaps.push(snapshot(&int));
             }
             format!("OK v {} {} snap {} | final {}", verdicts.len(), verdicts.join(" "), snaps.join("/"), finish_report(int))
         }
@@ -126,6 +135,10 @@ pub fn run(toks: &[&str]) -> String {
                 format!("class {} {} q {}{}", c.get(), c.num(), sym.verif_raw().len(), fmt_c(sym.verif_raw()))
             };
             let _ = qvnt::verif::take_outcomes();
+            // the run from Sym::new, without any reset
+            sym.finish();
+            outs.push(report(&sym));
+            qvnt::verif::seed(seed);
             sym.reset(); sym.finish();
             outs.push(report(&sym));
             qvnt::verif::seed(seed);
